@@ -19,6 +19,7 @@ def run(tier, seed):
     for r in base:
         # (a) the plain call, repeated on the same objects
         recipes.append(dict(r, repeat=True))
+        recipes.append(dict(r, repeat=True, prequery=True))
         # (b) a crash at every call the assembly makes into the objects it was given
         probe = exec_assembly(dict(r, fault={"at": 10 ** 6, "exc": "RuntimeError"}))[0]
         ncalls = probe["out"]["ncalls"]
